@@ -26,11 +26,15 @@ def cwD (c : Char) : Nat :=
   else if n < 32 || (127 ≤ n && n < 160) then 2
   else if isWide n then 2 else 1
 
-/-- `ch.width_cjk().unwrap_or(0)` (no ambiguous-width character is ever generated) -/
+/-- the East-Asian AMBIGUOUS-width characters the generator uses (Cyrillic а, Greek α, box drawing ─):
+    `width()` is 1, `width_cjk()` is 2 -/
+def isAmbiguous (n : Nat) : Bool := n = 1072 || n = 945 || n = 9472
+
+/-- `ch.width_cjk().unwrap_or(0)` -/
 def cwjD (c : Char) : Nat :=
   let n := c.toNat
   if n < 32 || (127 ≤ n && n < 160) then 0
-  else if isWide n then 2 else 1
+  else if isWide n || isAmbiguous n then 2 else 1
 
 /-! ### parsing -/
 
@@ -41,6 +45,7 @@ inductive Op
   | toggle | toggleAll | selectAll | deselectAll
   | scroll (d : Int)
   | draw (w h : Nat)
+  | run (k : Nat)                   -- `mark_new_run` of command string number k (canonical run number k + 1)
   deriving Repr
 
 def parseMatch (m : String) : Option MatchRange :=
@@ -78,6 +83,7 @@ def parseOp (t : String) : Option Op :=
   | ["sa"] => some .selectAll
   | ["da"] => some .deselectAll
   | ["c"] => some .clear
+  | ["rn", k] => k.toNat?.map .run
   | ["a", b] => ((b.splitOn ";").filter (· ≠ "")).mapM parseItem |>.map .append
   | ["w", wh] =>
     match (wh.splitOn ",").mapM String.toNat? with
@@ -200,6 +206,7 @@ def stepOp (v : View) : Op → Option (View × String)
   | .selectAll => let v' := v.selectAll; some (v', "s" ++ showState v')
   | .deselectAll => let v' := v.deselectAll; some (v', "s" ++ showState v')
   | .scroll d => let v' := v.scroll d; some (v', "s" ++ showState v')
+  | .run k => let v' := { v with run := k + 1 }; some (v', "s" ++ showState v')
   | .draw w h =>
     match draw v w h with
     | none => none
@@ -297,7 +304,7 @@ def judgeDraw (cfg : Cfg) (run : Nat) (th : Theme) (st : SpecSt) (o : DrawObs) (
     r := r + 1
 
 def judge (cfg : Cfg) (run : Nat) (th : Theme) (ops : List Op) (toks : List String) : String :=
-  let rec go (i : Nat) (st : SpecSt) (ops : List Op) (toks : List String) : String :=
+  let rec go (i : Nat) (run : Nat) (st : SpecSt) (ops : List Op) (toks : List String) : String :=
     match ops, toks with
     | [], [] => "ok"
     | [], _ => "bad:too-many-tokens"
@@ -306,19 +313,20 @@ def judge (cfg : Cfg) (run : Nat) (th : Theme) (ops : List Op) (toks : List Stri
       let allValid := st.items.all fun it => it.mr.validB it.text
       if t == "panic" then (if allValid then s!"bad:op{i}:panic" else "ok") else
       match o with
-      | .append b => go (i + 1) { st with items := st.items ++ b } os ts
-      | .clear => go (i + 1) { st with items := [] } os ts
-      | .scroll d => go (i + 1) { st with hscroll := st.hscroll + d } os ts
+      | .append b => go (i + 1) run { st with items := st.items ++ b } os ts
+      | .clear => go (i + 1) run { st with items := [] } os ts
+      | .scroll d => go (i + 1) run { st with hscroll := st.hscroll + d } os ts
       | .draw w h =>
-        if !allValid then go (i + 1) st os ts else
+        if !allValid then go (i + 1) run st os ts else
         match parseDraw t with
         | none => s!"bad:op{i}:unparsable-draw-token"
         | some ob =>
           match judgeDraw cfg run th st ob w h with
-          | .ok _ => go (i + 1) st os ts
+          | .ok _ => go (i + 1) run st os ts
           | .error why => s!"bad:op{i}:{why}"
-      | _ => go (i + 1) st os ts
-  go 0 {} ops toks
+      | .run k => go (i + 1) (k + 1) st os ts
+      | _ => go (i + 1) run st os ts
+  go 0 run {} ops toks
 
 /-- returns (model answer, verdict on the implementation's answer) -/
 def handle (case impl : String) : Except String (String × String) :=
